@@ -12,6 +12,9 @@
 //	faults <seed> <tier>      C15: fault-injecting JobQueue
 //	restart <seed> <n>        C05/C10: restart with the loop of the stopped run still alive
 //	poolstop <seed> <rounds>  C10: shutdown of a saturated worker pool
+//	opts                      C05: MisfiredChan that is not drained, OutdatedThreshold / RetryInterval at their extremes
+//	descmodes <seed>          C12: jobs whose Description() blocks / is slow / panics; hand-over when any worker frees
+//	slowapi                   C15: lifecycle calls while an API call is inside a slow queue operation
 //	busycancel <seed> <rounds> C10: cancellation of the Start context while the loop is held in a job / a queue call
 package main
 
@@ -227,6 +230,12 @@ func main() {
 		cmdPoolStop()
 	case "busycancel":
 		cmdBusyCancel()
+	case "opts":
+		cmdOpts()
+	case "descmodes":
+		cmdDescModes()
+	case "slowapi":
+		cmdSlowAPI()
 	default:
 		fmt.Fprintln(os.Stderr, "unknown subcommand", os.Args[1])
 		os.Exit(2)
